@@ -622,6 +622,26 @@ class Job:
                 extra = ['--trace', '--property', pid_prop]; files = [self.shared.recording_binary()]
             else:
                 extra = self.cdefs() + ['-D', 'VERIF_RECORD_TAPE', '-D', 'VERIF_TAPE_MAX=%d' % TAPE_MAX, '--trace', '--property', pid_prop]; files = self.cfiles
+            if h.slice_formula and os.environ.get('VERIF_SLICED_TRACE', '1') == '1':
+                # first attempt with the formula slice (much cheaper on large harnesses). A sliced trace may omit inputs outside the property's cone, so its tape is
+                # only USED if the native replay of that tape fails the assertion (nothing is reported that does not reproduce); otherwise fall through to the full trace
+                hs = H(h.name, h.src, h.entry); hs.__dict__.update(hh.__dict__); hs.slice_formula = True
+                wins, _ = run_cbmc_sweep(hs, files, self.entry, self.work, extra=extra, timeout=max(h.timeout, 600), variant=self.variant)
+                if wins['verdict'] == 'failed':
+                    t2 = tape_from_trace(wins['out'])
+                    rdir = os.path.join(VERIF, 'replays', self.pid); os.makedirs(rdir, exist_ok=True)
+                    p2 = os.path.join(rdir, self.id + '.tape')
+                    meta = dict(property=self.pid, harness=h.name, variant=self.variant, failing=[b[1] for b in bad][:5], trace='sliced')
+                    if self.entry_name: meta['entry'] = self.entry_name
+                    write_tape(p2, t2, meta)
+                    rc, out, _, _ = norm_trap(run([self.bins['bc']] + ([self.entry_name] if self.entry_name else []) + [p2], timeout=120))
+                    if rc == 1 and 'ASSERT-FAIL' in out:
+                        r['replay'] = dict(path=p2, rc=str(rc), out=out[-500:])
+                        r['status'] = 'violation'; r['failing'] = [b[1] for b in bad][:5]
+                        r['replay_msg'] = out.strip().splitlines()[-1] if out.strip() else ''
+                        return
+                    try: os.remove(p2)
+                    except OSError: pass
             win, _ = run_cbmc_sweep(hh, files, self.entry, self.work, extra=extra, timeout=max(h.timeout, 600), variant=self.variant)
             if win['verdict'] != 'failed':
                 raise Inconclusive('could not regenerate counterexample trace for %s: %s' % (pid_prop, win['out'][-800:]))
